@@ -870,6 +870,26 @@ func (c *cenv) call(x *CCall) (cval, error) {
 		}
 		e.harr(arr, "Int")
 		return cval{e.hnameIn(arr, c.st), "Int", nil}, nil
+	case "callresult":
+		// callresult("key", k): result of the k-th call of the callee (meaningful where ncalls(key) >= k)
+		if len(x.Args) != 2 {
+			return cval{}, fmt.Errorf("callresult(\"key\", k)")
+		}
+		lit, ok1 := x.Args[0].(*CLit)
+		ord, ok2 := x.Args[1].(*CLit)
+		if !ok1 || !ok2 || lit.Kind != "string" || ord.Kind != "int" {
+			return cval{}, fmt.Errorf("callresult: (string literal, ordinal)")
+		}
+		k := lit.Val + "#" + ord.Val
+		if v, ok := e.callResults[k]; ok {
+			return v, nil
+		}
+		if t, ok := e.callResultTypes[lit.Val]; ok {
+			n := "cr_" + sname(k)
+			e.declValue(n, t)
+			return cval{n, e.sortOf(t), t}, nil
+		}
+		return cval{}, fmt.Errorf("callresult(%q): the function does not call it", lit.Val)
 	case "atlock":
 		// atlock(k, e): e evaluated in the state right after the k-th lock acquisition of this function
 		if len(x.Args) != 2 {
